@@ -16,11 +16,12 @@ class _Return(Exception):
         self.value = value
 
 
-def fold_function(prog: Program, fn: FuncInfo, budget: int = 200000) -> Any:
-    """Value returned by the closed function *fn*; NotConst when it is not closed / uses an unsupported construct."""
-    if fn.params:
+def fold_function(prog: Program, fn: FuncInfo, budget: int = 200000, args: Dict[str, Any] = None) -> Any:
+    """Value returned by the closed function *fn* (or by *fn* applied to the constant arguments *args*); NotConst when
+    it is not closed / uses an unsupported construct."""
+    if [p_ for p_ in fn.params if p_ not in (args or {})]:
         raise NotConst("%s takes parameters" % fn.short)
-    env: Dict[str, Any] = {}
+    env: Dict[str, Any] = dict(args or {})
     steps = [0]
 
     def ev(e):
